@@ -65,6 +65,18 @@ def run_case(cs, ctx):
         ctx.cov('three_digit_ids')
     else:
         spec = sp.make_spec(rng, max_s=rng.choice([1, 2, 4, 4, 6]), max_p=rng.choice([1, 3, 4, 6]), max_l=4)
+    if cs % 30 == 4 and spec.get('shape') not in ('big', 'huge_ids'):
+        # quotas and targets that no double represents exactly (beyond 2**53)
+        big = rng.choice([9007199254740993, 99999999999999999, 123456789012345678901])
+        k = rng.randrange(spec['nl'])
+        spec['luq'][k] = big
+        spec['lt'][k] = big if spec['na'] == 2 else rng.choice([big, big - 2, spec['lt'][k]])
+        for j in range(spec['np']):
+            if spec['plec'][j] == k + 1:
+                spec['puq'][j] = big if spec['na'] == 2 else rng.choice([big, big - 4])
+        if rng.random() < 0.3 and spec['na'] == 3:
+            spec['llq'][k] = min(spec['lt'][k], 9007199254740995)
+        ctx.cov('quotas_beyond_2_to_the_53')
     twopl = rng.random() < 0.6
     exp = expected(spec, twopl)
     case = {'cs': cs, 'spec': spec, 'twopl': twopl}
@@ -77,6 +89,20 @@ def run_case(cs, ctx):
         text = sp.render(spec, rng=rng, second_side=second, noise=variant > 0, info_block=(variant != 2), exotic_ws=exotic)
         path = en.write_file(ctx.workdir, text, 'v%d.txt' % variant)
         argv = ['-f', path, '-na', str(spec['na'])] + (['-twopl'] if twopl else [])
+        rel_cwd = None
+        if variant == 0 and cs % 10 == 3:
+            # the file is named relative to the working directory of the moment; the directory the process was
+            # in when the package was imported (the worker's scratch directory) holds ANOTHER file of that name
+            import os as _os
+            rel_cwd = _os.path.join(ctx.workdir, 'reldir')
+            _os.makedirs(rel_cwd, exist_ok=True)
+            path = en.write_file(rel_cwd, text, 'v0.txt', plain=True)
+            decoy = _os.path.join(ctx.workdir, 'v0.txt')
+            if not _os.path.exists(decoy):
+                with open(decoy, 'w') as fh:
+                    fh.write('1 1\n1: 1\n1: 0: 1: 1\n')
+            argv[1] = rng.choice(['v0.txt', './v0.txt', '../reldir/v0.txt'])
+            ctx.cov('file_named_relative_to_the_working_directory')
         case['file'] = text
         ctx.cnt('files_loaded')
         faulty = variant == 1 and cs % 25 == 6
@@ -123,9 +149,14 @@ def run_case(cs, ctx):
                 holder.open = opener
                 ctx.cnt('reads_with_an_injected_io_error')
         try:
+            import os as _os2
+            _cwd = _os2.getcwd()
             try:
+                if rel_cwd:
+                    _os2.chdir(rel_cwd)
                 s = Solver(argv)
             finally:
+                _os2.chdir(_cwd)
                 if faulty and holder is not None and 'open' in vars(holder):
                     del holder.open
         except OSError as e:
